@@ -312,7 +312,7 @@ theorem natCodec_lawful : natCodec.Lawful :=
 
 structure Inv (W : World) : Prop where
   store_nodup : (W.store.map (·.1)).Nodup
-  fs_seq : ∀ i, fget W.fs i ≠ none → i.seq < W.seq
+  fs_seq : ∀ i, fget W.fs i ≠ none → i.seq < W.seq ∨ i.ms < W.clock
   metas_seq : ∀ m ∈ W.metas, m.id.seq < W.seq
   metas_nodup : (W.metas.map (·.id)).Nodup
 
@@ -376,6 +376,27 @@ theorem step_store_nodup (c : Codec) (cfg : Cfg) (W : World) (op : Op)
     · exact h
   | advance d => exact h
 
+/-- the clock never goes back -/
+theorem step_clock_mono (c : Codec) (cfg : Cfg) (W : World) (op : Op) :
+    W.clock ≤ (step c cfg W op).1.clock := by
+  cases op with
+  | update k v =>
+    simp only [step, update]
+    split
+    · exact Nat.le_refl _
+    · split <;> exact Nat.le_refl _
+  | restore i =>
+    simp only [step, restore]
+    split
+    · split
+      · exact Nat.le_refl _
+      · exact Nat.le_refl _
+      · split <;> exact Nat.le_refl _
+    · exact Nat.le_refl _
+  | advance d => simp [step]
+  | checkpoint => simp [step, checkpoint]
+  | _ => simp [step]
+
 theorem inv_step (c : Codec) {cfg : Cfg} (hl : cfg.legacy = false) {W : World} (h : Inv W) (op : Op) :
     Inv (step c cfg W op).1 := by
   by_cases hop : op = .checkpoint
@@ -390,9 +411,9 @@ theorem inv_step (c : Codec) {cfg : Cfg} (hl : cfg.legacy = false) {W : World} (
         · rw [hjn, hid]; simp
         · have : fget W.fs j ≠ none := by
             intro e; apply hj; split <;> simp [hjn, e]
-          exact Nat.lt_succ_of_lt (h.fs_seq j this)
+          exact (h.fs_seq j this).imp Nat.lt_succ_of_lt id
       · simp only [hf] at hj
-        exact Nat.lt_succ_of_lt (h.fs_seq j hj)
+        exact (h.fs_seq j hj).imp Nat.lt_succ_of_lt id
     · intro m hm
       simp only [step, checkpoint] at hm ⊢
       have := (retain_sublist _ _).subset hm
@@ -414,7 +435,8 @@ theorem inv_step (c : Codec) {cfg : Cfg} (hl : cfg.legacy = false) {W : World} (
       rw [hme, hid] at this; simp at this
   · obtain ⟨h1, h2, h3⟩ := step_frame c cfg W op hop
     refine ⟨step_store_nodup c cfg W op h.store_nodup, ?_, ?_, ?_⟩
-    · rw [h1, h3]; exact h.fs_seq
+    · rw [h1, h3]; intro i hi
+      exact (h.fs_seq i hi).imp id (fun x => Nat.lt_of_lt_of_le x (step_clock_mono c cfg W op))
     · rw [h1, h2]; exact h.metas_seq
     · rw [h2]; exact h.metas_nodup
 
